@@ -163,6 +163,44 @@ def qualify_members(body, members, selfname='self'):
     return body, n_total
 
 
+def resolve_ifdefs(body, defined):
+    """R16: `#ifdef M / #ifndef M / #else / #endif` inside a body are resolved with the definedness of M that the
+    binding probe observed when g++ compiled the real header (defined: dict name -> bool).  Unknown macro => error."""
+    out, stack, n = [], [], 0
+    for line in body.split('\n'):
+        t = line.strip()
+        m = re.match(r'#\s*(ifdef|ifndef)\s+(\w+)', t)
+        if m:
+            if m.group(2) not in defined:
+                raise ExtractError('preprocessor conditional on %s: definedness not supplied by the probe' % m.group(2))
+            v = defined[m.group(2)]
+            stack.append(v if m.group(1) == 'ifdef' else not v)
+            n += 1
+            continue
+        if re.match(r'#\s*else\b', t) and stack:
+            stack[-1] = not stack[-1]
+            continue
+        if re.match(r'#\s*endif\b', t) and stack:
+            stack.pop()
+            continue
+        if re.match(r'#\s*(if|elif)\b', t):
+            raise ExtractError('unsupported preprocessor conditional in body: ' + t)
+        if all(stack):
+            out.append(line)
+    return '\n'.join(out), n
+
+
+def lower_meminit(text, selfname='self'):
+    """R12: a constructor's mem-initialiser list `a(e1), b(e2)` -> `self->a = e1; self->b = e2;`"""
+    out = []
+    for item in split_args(text):
+        m = re.match(r'^(\w+)\s*\((.*)\)$', item.strip(), re.S)
+        if not m:
+            raise ExtractError('mem-initialiser not of the form name(expr): ' + item[:60])
+        out.append('%s->%s = %s;' % (selfname, m.group(1), m.group(2).strip() or '0'))
+    return ' '.join(out)
+
+
 class Extracted:
     def __init__(self, ident, header, line, sig, raw, text, fired):
         self.ident, self.header, self.line, self.sig = ident, header, line, sig
@@ -217,7 +255,7 @@ def extract_expr(ident, header, anchor, rules=(), members=(), within=None, commo
 
 
 def extract(ident, header, anchor, nth=0, rules=(), members=(), count=None, within=None,
-            common=True, keep_comments=False):
+            common=True, keep_comments=False, ppdefs=None, meminit=False):
     """Cut one body.  `within`: optional anchor regex of an enclosing struct; the function anchor
     is then searched only inside that struct's braces (used for specialisations)."""
     text = read_header(header)
@@ -229,6 +267,18 @@ def extract(ident, header, anchor, nth=0, rules=(), members=(), count=None, with
     raw, line, sig = find_body(text, anchor, nth, count)
     body = raw if keep_comments else strip_comments(raw)
     fired = [('R1.comments', 1)] if body != raw else []
+    if '#' in body:
+        body, n = resolve_ifdefs(body, ppdefs or {})
+        if n:
+            fired.append(('R16.ifdef', n))
+    if meminit:
+        # constructor: `sig` ends with `) : init-list` ; prepend the lowered initialisers to the body
+        mi = re.search(r'\)\s*:\s*(.*)$', strip_comments(sig), re.S)
+        if not mi:
+            raise ExtractError('constructor without mem-initialiser list: ' + anchor)
+        raw = sig + raw
+        body = '{ ' + lower_meminit(mi.group(1)) + '\n' + body + ' }'
+        fired.append(('R12.meminit', 1))
     body, f1 = apply_rules(body, list(rules))
     fired += f1
     if common:
